@@ -1,16 +1,21 @@
 """C11 - reported SINRs equal first-principles signal over interference-plus-noise.
 
 Stage M: TLC on spec/chan/Sinr.tla.  Every explored case satisfies the laws of the property
-(NonNegative, ScaleInvariant, QHermitianPSD, QIsSumOfLinks, DenIsQuadraticForm, BIsQPlusOwn,
-CapacityTerms), the model of the code's covariance algebra equals the stream-by-stream definition
+(NonNegative, ScaleInvariant = homogeneity of every power term in the filter scale and the channel
+gain, QScales, QHermitianPSD, QIsSumOfLinks, DenIsQuadraticForm, BIsQPlusOwn, CapacityTerms,
+CachesFresh), the model of the code's covariance algebra equals the stream-by-stream definition
 (AlgMatches, SolverAlgMatches, SolverZeroForcing, SolverAgrees); for every `Dev` flag (a plausible
-regression of one algebra step - no deviation of /repo is known for C11) TLC must find a
-counterexample (non-vacuity).
-Stage R: every case TLC emitted (exhaustive 1x1 family + seeded families with 2x2 blocks,
-external interference, joint processing, 1-2 streams, K = 2 / 3) is executed on the real
-MultiUserChannelMatrix / MultiUserChannelMatrixExtInt and on an IASolverBaseClass subclass fed through
-set_precoders / set_receive_filters; every returned number is compared with the exact rational TLC
-emitted (log2 / log10 evaluated in Python from that exact rational).
+regression of one algebra step or of one cache invalidation) TLC must find a counterexample.
+Stage R: every case TLC emitted is executed on the real MultiUserChannelMatrix /
+MultiUserChannelMatrixExtInt and on an IASolverBaseClass subclass; every returned number is compared
+with the exact rational TLC emitted (log2 / log10 evaluated in Python from that exact rational).
+ * star cases (exhaustive 1x1 family + seeded families): fresh objects per case;
+ * chains: the consecutive cases of a chain are served by ONE channel object and ONE solver object
+   (re-initialisation with another antenna partition of equal totals while the path loss is kept or
+   set anew; powers changed through the solver's P setter with a vector / scalar / None in all
+   orders) - after every step every quantity is compared again;
+ * the scale law TLC proved term by term is replayed with extreme factors (filters x 1e-9 / 1e+9,
+   channel gain and noise x 1e-17 / 1e+17): the exact SINRs do not change, Q scales exactly.
 
 Python here only converts exact values to floats, drives pyphysim and compares."""
 import math
@@ -26,11 +31,13 @@ from ..core import pool_map
 MODULE = "chan/Sinr.tla"
 TOL = 1e-9
 DEVS = ["OwnStreamNotSubtracted", "NoiseNotFiltered", "ExtIntPowerIgnored", "JpRowsOfOtherUser",
-        "PathlossIgnored", "ConjMissing", "SolverScalesByP", "ListPrecodersScaledAlongStreams"]
-# the one flag that is an observed deviation of /repo (found by this check); id of the finding
+        "PathlossIgnored", "ConjMissing", "SolverScalesByP", "ListPrecodersScaledAlongStreams",
+        "PowerNoneKeepsCaches", "PlExpansionReusedOnEqualShape"]
+# id of the finding the list sub-check maps to (fixed in /repo: 15af8cd)
 F_LIST = "ListPrecodersScaledAlongStreams"
-INVARIANTS = ["TypeOK", "NonNegative", "ScaleInvariant", "QHermitianPSD", "QIsSumOfLinks", "DenIsQuadraticForm",
-              "BIsQPlusOwn", "AlgMatches", "SolverZeroForcing", "SolverAgrees", "SolverAlgMatches", "CapacityTerms"]
+INVARIANTS = ["TypeOK", "CachesFresh", "NonNegative", "ScaleInvariant", "QScales", "QHermitianPSD", "QIsSumOfLinks",
+              "DenIsQuadraticForm", "BIsQPlusOwn", "AlgMatches", "SolverZeroForcing", "SolverAgrees", "SolverAlgMatches",
+              "CapacityTerms"]
 EXH_COUNT = 3888  # = ExhCount of the specification
 
 
@@ -62,18 +69,41 @@ CFG_K3 = [
     _cfg(3, [1, 2, 2], [2, 1, 2], [1, 2, 1], jp=True, amps=1),           # 17
 ]
 CFGS = CFG_K2 + CFG_K3
-QUICK_COUNTS = {1: 48, 2: 48, 3: 40, 4: 36, 5: 48, 6: 40, 7: 44, 8: 40, 9: 24}
+QUICK_COUNTS = {1: 44, 2: 44, 3: 36, 4: 32, 5: 44, 6: 36, 7: 40, 8: 36, 9: 20}
 THOROUGH_COUNTS = {1: 160, 2: 160, 3: 120, 4: 120, 5: 160, 6: 120, 7: 160, 8: 120, 9: 100,
                    10: 600, 11: 400, 12: 300, 13: 400, 14: 300, 15: 400, 16: 300, 17: 300}
-# where each deviation flag is exposed (configuration index range, cases)
-DEV_WHERE = {"OwnStreamNotSubtracted": (1, 1), "NoiseNotFiltered": (1, 1), "ExtIntPowerIgnored": (5, 6),
-             "JpRowsOfOtherUser": (7, 8), "PathlossIgnored": (1, 3), "ConjMissing": (1, 1), "SolverScalesByP": (1, 2),
-             "ListPrecodersScaledAlongStreams": (2, 2)}
+
+# Chains: one channel object and one solver object serve the consecutive cases.  The partitions of a chain have
+# the same number of users / sources and the same antenna TOTALS but different per-user counts (a stale per-antenna
+# expansion then has the right shape and silently scales the wrong entries).
+_OPS_SOLVER = ["init", "power", "power", "reinit", "power", "reinit"]
+_OPS_CHAN = ["init", "reinit", "power", "reinit"]
+CHAINS = [
+    dict(parts=[_cfg(2, [1, 2], [2, 1], [1, 1]), _cfg(2, [2, 1], [1, 2], [1, 1])], ops=_OPS_SOLVER),             # 1 plain + solver
+    dict(parts=[_cfg(2, [1, 2], [2, 1], [1, 1], nte=[2]), _cfg(2, [2, 1], [1, 2], [1, 1], nte=[2])], ops=_OPS_CHAN),  # 2 ext
+    dict(parts=[_cfg(2, [1, 2], [2, 1], [1, 1], jp=True), _cfg(2, [2, 1], [1, 2], [1, 2], jp=True)], ops=_OPS_CHAN),  # 3 JP
+    dict(parts=[_cfg(2, [2, 1], [1, 2], [1, 1], nte=[1], jp=True), _cfg(2, [1, 2], [2, 1], [1, 1], nte=[1], jp=True)],
+         ops=_OPS_CHAN),                                                                                       # 4 JP + ext
+    dict(parts=[_cfg(2, [2, 2], [2, 2], [2, 2], amps=1), _cfg(2, [2, 2], [2, 2], [2, 1], amps=1)], ops=_OPS_SOLVER),  # 5 two streams
+    dict(parts=[_cfg(3, [1, 2, 2], [2, 2, 1], [1, 1, 1], amps=1), _cfg(3, [2, 1, 2], [1, 2, 2], [1, 1, 1], amps=1),
+                _cfg(3, [2, 2, 1], [2, 1, 2], [1, 1, 1], amps=1)], ops=_OPS_SOLVER),                            # 6 K = 3 + solver
+    dict(parts=[_cfg(3, [1, 2, 2], [2, 2, 1], [1, 2, 1], nte=[1], jp=True, amps=1),
+                _cfg(3, [2, 2, 1], [1, 2, 2], [2, 1, 1], nte=[1], jp=True, amps=1)], ops=_OPS_CHAN),            # 7 K = 3 JP + ext
+]
+QUICK_CHAINS = {1: 18, 2: 6, 3: 6, 4: 6, 5: 9}          # chain configuration -> chain numbers 0..n-1
+THOROUGH_CHAINS = {1: 54, 2: 30, 3: 30, 4: 30, 5: 54, 6: 54, 7: 30}
+
+# where each deviation flag is exposed: ("star", clo, chi) or ("chain", hlo, hhi)
+DEV_WHERE = {"OwnStreamNotSubtracted": ("star", 1, 1), "NoiseNotFiltered": ("star", 1, 1), "ExtIntPowerIgnored": ("star", 5, 6),
+             "JpRowsOfOtherUser": ("star", 7, 8), "PathlossIgnored": ("star", 1, 3), "ConjMissing": ("star", 1, 1),
+             "SolverScalesByP": ("star", 1, 2), "ListPrecodersScaledAlongStreams": ("star", 2, 2),
+             "PowerNoneKeepsCaches": ("chain", 1, 1), "PlExpansionReusedOnEqualShape": ("chain", 1, 1)}
 
 
-def model(clo, chi, lo, hi, seed, dev=(), emit=True):
-    defs = {"Cfgs": tlc.tla(CFGS), "Dev": tlc.tla({d: (d in dev) for d in DEVS})}
-    cfg = tlc.cfg_text(constants={"CLo": str(clo), "CHi": str(chi), "Lo": str(lo), "Hi": str(hi), "Seed": str(seed)},
+def model(clo, chi, lo, hi, seed, dev=(), emit=True, hlo=1, hhi=0):
+    defs = {"Cfgs": tlc.tla(CFGS), "Chains": tlc.tla(CHAINS), "Dev": tlc.tla({d: (d in dev) for d in DEVS})}
+    cfg = tlc.cfg_text(constants={"CLo": str(clo), "CHi": str(chi), "HLo": str(hlo), "HHi": str(hhi),
+                                  "Lo": str(lo), "Hi": str(hi), "Seed": str(seed)},
                        defs=defs, invariants=INVARIANTS, action_constraints=["Emit"] if emit else [])
     return cfg, defs
 
@@ -141,38 +171,111 @@ class _Solver:
         return cls.cls
 
 
-def build_channel(inp):
-    from pyphysim.channels import multiuser
-    K = inp["K"]
-    nr, nt, nte = inp["nr"], inp["nt"], inp["nte"]
-    H = _mat(inp["H"])
-    ext = len(nte) > 0
-    if ext:
-        ch = multiuser.MultiUserChannelMatrixExtInt()
-        ch.init_from_channel_matrix(H.copy(), np.array(nr), np.array(nt), K, np.array(nte))
-    else:
-        ch = multiuser.MultiUserChannelMatrix()
-        ch.init_from_channel_matrix(H.copy(), np.array(nr), np.array(nt), K)
+NOISE = {"none": None, "zero": 0.0, "half": 0.5}
+
+
+def _pl_power(inp, gain=1.0):
+    """path-loss POWER matrix K x (K + Ke) of the case (None: no path loss), optionally x gain"""
+    K, ke = inp["K"], len(inp["nte"])
     if inp["pl"]:
-        power = np.array([[float(_rat(a) ** 2) for a in row] for row in inp["pl"]], dtype=float)
-        if ext:
-            ch.set_pathloss(power[:, :K].copy(), power[:, K:].copy())
-        else:
-            ch.set_pathloss(power.copy())
-    ch.noise_var = {"none": None, "zero": 0.0, "half": 0.5}[inp["noise"]]
+        return np.array([[float(_rat(a) ** 2) for a in row] for row in inp["pl"]], dtype=float) * gain
+    if gain == 1.0:
+        return None
+    return np.ones((K, K + ke)) * gain
+
+
+def _set_pathloss(ch, inp, gain=1.0):
+    K = inp["K"]
+    ext = len(inp["nte"]) > 0
+    power = _pl_power(inp, gain)
+    if power is None:
+        ch.set_pathloss(None, None) if ext else ch.set_pathloss(None)
+    elif ext:
+        ch.set_pathloss(power[:, :K].copy(), power[:, K:].copy())
+    else:
+        ch.set_pathloss(power.copy())
+
+
+def _init_channel(ch, inp):
+    K = inp["K"]
+    H = _mat(inp["H"])
+    if len(inp["nte"]) > 0:
+        ch.init_from_channel_matrix(H.copy(), np.array(inp["nr"]), np.array(inp["nt"]), K, np.array(inp["nte"]))
+    else:
+        ch.init_from_channel_matrix(H.copy(), np.array(inp["nr"]), np.array(inp["nt"]), K)
+
+
+def build_channel(inp, gain=1.0):
+    """a fresh channel object for the case; gain multiplies every path-loss power and the noise variance"""
+    from pyphysim.channels import multiuser
+    ch = multiuser.MultiUserChannelMatrixExtInt() if len(inp["nte"]) > 0 else multiuser.MultiUserChannelMatrix()
+    _init_channel(ch, inp)
+    if inp["pl"] or gain != 1.0:
+        _set_pathloss(ch, inp, gain)
+    nv = NOISE[inp["noise"]]
+    ch.noise_var = nv if nv is None else nv * gain
     return ch
 
 
-def run_case(case):
-    """Execute one emitted case on the real classes.
+def solver_applies(inp):
+    return (not inp["jp"]) and len(inp["nte"]) == 0
+
+
+class Session:
+    """the real objects that serve a star case (fresh) or the consecutive cases of a chain (persistent)"""
+
+    def __init__(self):
+        self.ch = None
+        self.solver = None
+
+    def apply(self, case):
+        """bring the objects to the case the way its `op` says"""
+        inp = case["inp"]
+        op = inp["op"]
+        K = inp["K"]
+        kind = op["kind"]
+        F = [_mat(inp["F"][k]) for k in range(K)]
+        U = [_mat(inp["U"][k]) for k in range(K)]
+        P = np.array([float(_rat(a) ** 2) for a in inp["pa"]])
+        if kind in ("fresh", "init"):
+            self.ch = build_channel(inp)
+            if solver_applies(inp):
+                self.solver = _Solver.get()(self.ch)
+        elif kind == "reinit":
+            _init_channel(self.ch, inp)             # same object, other antenna partition
+            if op["pl"] == "set":
+                _set_pathloss(self.ch, inp)
+            self.ch.noise_var = NOISE[inp["noise"]]
+        if kind in ("fresh", "init", "reinit") and self.solver is not None:
+            variant = (inp["id"][0] + inp["id"][1]) % 2
+            fullF = [math.sqrt(P[k]) * F[k] for k in range(K)]
+            if kind != "fresh" or variant == 0 or any(not np.any(f) for f in fullF):
+                self.solver.set_precoders(F=_objarr(F), P=P.copy())
+                self.solver.set_receive_filters(W=_objarr(U))
+            else:
+                self.solver.set_precoders(full_F=_objarr([f.copy() for f in fullF]))
+                self.solver.set_receive_filters(W_H=_objarr([u.conj().T for u in U]))
+        if kind == "power" and self.solver is not None:
+            if op["pw"] == "vec":
+                self.solver.P = P.copy()
+            elif op["pw"] == "scalar":
+                self.solver.P = float(P[0])
+            else:
+                self.solver.P = None
+
+
+def compare(sess, case):
+    """Compare everything the objects of the session report with the exact values of the case.
     Returns (comparisons, [violation texts], [texts with the signature of finding F_LIST])."""
     inp, out = case["inp"], case["out"]
     K, ns, nr = inp["K"], inp["ns"], inp["nr"]
     ext = len(inp["nte"]) > 0
     jp = inp["jp"]
+    ch = sess.ch
     bad = []
     known = []
     n = [0]
+    tag = "" if inp["op"]["kind"] == "fresh" else f"[chain step {inp['step']} {inp['op']['kind']}/{inp['op']['pl']}/{inp['op']['pw']}] "
 
     def cmp(what, got, want):
         n[0] += 1
@@ -182,13 +285,13 @@ def run_case(case):
             ok = False
             what += f" ({type(ex).__name__}: {ex})"
         if not ok:
-            bad.append(f"{what}: code {np.asarray(got).tolist()!r:.200} expected {np.asarray(want).tolist()!r:.200}")
+            bad.append(f"{tag}{what}: code {np.asarray(got).tolist()!r:.200} expected {np.asarray(want).tolist()!r:.200}")
 
     def cmp_rows(what, got, want_rows):
         got = list(got)
         if len(got) != len(want_rows):
             n[0] += 1
-            bad.append(f"{what}: {len(got)} users returned, expected {len(want_rows)}")
+            bad.append(f"{tag}{what}: {len(got)} users returned, expected {len(want_rows)}")
             return
         for k in range(len(want_rows)):
             cmp(f"{what}[user {k}]", np.asarray(got[k], dtype=float), np.array(want_rows[k], dtype=float))
@@ -198,13 +301,8 @@ def run_case(case):
             return f()
         except Exception as ex:
             n[0] += 1
-            bad.append(f"{what} raised {type(ex).__name__}: {ex}")
+            bad.append(f"{tag}{what} raised {type(ex).__name__}: {ex}")
             return None
-
-    try:
-        ch = build_channel(inp)
-    except Exception as ex:
-        return 1, [f"building the channel object raised {type(ex).__name__}: {ex}"], []
 
     pa = [float(_rat(a)) for a in inp["pa"]]
     F = [_mat(inp["F"][k]) for k in range(K)]
@@ -222,28 +320,24 @@ def run_case(case):
     Q = [_mat(out["Q"][k]) for k in range(K)]
 
     # --- the channel object
-    calc_sinr = ch.calc_JP_SINR if jp else ch.calc_SINR
-    calc_q = ch.calc_JP_Q if jp else ch.calc_Q
-    name = ("calc_JP_SINR" if jp else "calc_SINR") + ("(ext)" if ext else "")
-    got = guarded(name, lambda: calc_sinr(fullF, Uo, **pekw))
+    jname = "calc_JP_SINR" if jp else "calc_SINR"
+    qmeth = "calc_JP_Q" if jp else "calc_Q"
+    name = jname + ("(ext)" if ext else "")
+    qname = qmeth + ("(ext)" if ext else "")
+    got = guarded(name, lambda: getattr(ch, jname)(fullF, Uo, **pekw))
     if got is not None:
         cmp_rows(name, got, sinr)
-    got = guarded(name + " with list arguments", lambda: calc_sinr(list(fullF), list(U), **pekw))
+    got = guarded(name + " with list arguments", lambda: getattr(ch, jname)(list(fullF), list(U), **pekw))
     if got is not None:
         cmp_rows(name + " with list arguments", got, sinr)
-    # U -> c*U must not change any SINR (the law TLC checked for this c)
-    got = guarded(name + " rescaled U", lambda: calc_sinr(fullF, _objarr([sc * u for u in U]), **pekw))
-    if got is not None:
-        cmp_rows(name + " with U rescaled by %r" % (sc,), got, sinr)
-    qname = ("calc_JP_Q" if jp else "calc_Q") + ("(ext)" if ext else "")
     for k in range(K):
-        got = guarded(qname, lambda: calc_q(k, fullF, **pekw))
+        got = guarded(qname, lambda: getattr(ch, qmeth)(k, fullF, **pekw))
         if got is not None:
             cmp(f"{qname}[user {k}]", got, Q[k])
             g = np.asarray(got)
             n[0] += 1
             if g.shape == Q[k].shape and not np.allclose(g, g.conj().T, rtol=0, atol=TOL):
-                bad.append(f"{qname}[user {k}] is not Hermitian")
+                bad.append(f"{tag}{qname}[user {k}] is not Hermitian")
     # internal: the per-stream covariance the SINR is computed from (anchored mechanism)
     for k in range(K):
         def bkl():
@@ -256,6 +350,26 @@ def run_case(case):
         if got is not None:
             for l in range(ns[k]):
                 cmp(f"(internal) Bkl[user {k}][stream {l}]", got[l], _mat(out["B"][k][l]))
+
+    # --- the scale law with ordinary and with extreme factors.  TLC proved for this case that every power term is
+    # homogeneous in the filter scale c and in the channel gain (amplitude a, noise x a^2); the exact SINRs are
+    # therefore unchanged for any magnitude and Q is multiplied by a^2.  One of four extreme settings per case.
+    ga2 = float(_rat(inp["ga"]) ** 2)
+    ex_c, ex_gain = [(1e-9, 1.0), (1e9, 1.0), (1.0, 1e-17 * ga2), (1.0, 1e17 * ga2)][(inp["id"][0] + inp["id"][1]) % 4]
+    for label, c, gain in (("", sc, 1.0), (" (extreme)", sc * ex_c, ex_gain)):
+        ch2 = ch if gain == 1.0 else guarded("channel with gain %g" % gain, lambda: build_channel(inp, gain))
+        if ch2 is None:
+            continue
+        what = f"{name} with U x {c!r}, gain x {gain:g}{label}"
+        got = guarded(what, lambda: getattr(ch2, jname)(fullF, _objarr([c * u for u in U]), **pekw))
+        if got is not None:
+            cmp_rows(what, got, sinr)
+        if gain != 1.0:
+            for k in range(K):
+                got = guarded(qname + " gain", lambda: getattr(ch2, qmeth)(k, fullF, **pekw))
+                if got is not None:
+                    cmp(f"{qname}[user {k}] / gain with gain x {gain:g}", np.asarray(got) / gain, Q[k])
+
     # sum capacity of exact SINRs through util.misc
     from pyphysim.util.misc import calc_shannon_sum_capacity
     cap = sum(_log2_frac(q) for q in _flat(one_plus))
@@ -265,44 +379,37 @@ def run_case(case):
 
     # --- the IA solver base class (plain interference channel only)
     sol = out["sol"]
-    if sol["ok"]:
+    s = sess.solver
+    if sol["ok"] and s is not None:
         ssinr = [[float(_rat(x)) for x in row] for row in sol["sinr"]]
         sq = [[_rat(x) for x in row] for row in sol["sinr"]]
         P = np.array([float(_rat(a) ** 2) for a in inp["pa"]])
+        if inp["op"]["kind"] != "fresh":     # (fresh cases may hand over full_F directly; P then stays at its default)
+            n[0] += 1
+            if not _close(np.asarray(s.P, dtype=float), P):
+                bad.append(f"{tag}solver.P reports {np.asarray(s.P).tolist()} expected {P.tolist()}")
 
-        def make(v, Us):
-            s = _Solver.get()(ch)
-            zeroF = any(not np.any(f) for f in fullF)
-            if v == 0 or zeroF:
-                s.set_precoders(F=_objarr(F), P=P.copy())
-                s.set_receive_filters(W=_objarr(Us))
-            else:
-                s.set_precoders(full_F=_objarr([f.copy() for f in fullF]))
-                s.set_receive_filters(W_H=_objarr([u.conj().T for u in Us]))
-            return s
-
-        s = guarded("IASolverBaseClass set_precoders/set_receive_filters", lambda: make(variant, U))
-        if s is not None:
-            got = guarded("solver.calc_SINR", s.calc_SINR)
+        def solver_checks(s, label, gain=1.0):
+            got = guarded("solver.calc_SINR" + label, s.calc_SINR)
             if got is not None:
-                cmp_rows("solver.calc_SINR", got, ssinr)
-            got = guarded("solver.calc_SINR_in_dB", s.calc_SINR_in_dB)
+                cmp_rows("solver.calc_SINR" + label, got, ssinr)
+            got = guarded("solver.calc_SINR_in_dB" + label, s.calc_SINR_in_dB)
             if got is not None:
-                with np.errstate(divide="ignore"):
-                    want = [[(10.0 * (math.log10(q.numerator) - math.log10(q.denominator)) if q > 0 else -np.inf)
-                             for q in row] for row in sq]
-                cmp_rows("solver.calc_SINR_in_dB", got, want)
-            got = guarded("solver.calc_sum_capacity", s.calc_sum_capacity)
+                want = [[(10.0 * (math.log10(q.numerator) - math.log10(q.denominator)) if q > 0 else -np.inf)
+                         for q in row] for row in sq]
+                cmp_rows("solver.calc_SINR_in_dB" + label, got, want)
+            got = guarded("solver.calc_sum_capacity" + label, s.calc_sum_capacity)
             if got is not None:
-                cmp("solver.calc_sum_capacity", got, sum(_log2_frac(1 + q) for q in _flat(sq)))
+                cmp("solver.calc_sum_capacity" + label, got, sum(_log2_frac(1 + q) for q in _flat(sq)))
             for k in range(K):
-                got = guarded("solver.calc_Q", lambda: s.calc_Q(k))
+                got = guarded("solver.calc_Q" + label, lambda: s.calc_Q(k))
                 if got is not None:
-                    cmp(f"solver.calc_Q[user {k}]", got, Q[k])
+                    cmp(f"solver.calc_Q[user {k}]{label}", np.asarray(got) / gain, Q[k])
             # the two implementations agree: the channel object fed with the solver's full filters
-            got = guarded("channel.calc_SINR(solver.full_F, solver.full_W)", lambda: ch.calc_SINR(s.full_F, s.full_W))
+            got = guarded("channel.calc_SINR(solver.full_F, solver.full_W)" + label,
+                          lambda: s._multiUserChannel.calc_SINR(s.full_F, s.full_W))
             if got is not None:
-                cmp_rows("channel.calc_SINR(solver.full_F, solver.full_W)", got, ssinr)
+                cmp_rows("channel.calc_SINR(solver.full_F, solver.full_W)" + label, got, ssinr)
             # (rel) remaining interference: smallest Ns eigenvalues of Q over its trace, from exact trace / determinant
             for k in range(K):
                 tr, det = _rat(out["qtr"][k]), _rat(out["qdet"][k])
@@ -313,76 +420,134 @@ def run_case(case):
                 else:  # Nr = 2, one stream: lambda_min = 2 det / (tr + sqrt(tr^2 - 4 det))
                     t, d = float(tr), float(det)
                     want = (2.0 * d / (t + math.sqrt(max(t * t - 4.0 * d, 0.0)))) / t
-                got = guarded("solver.calc_remaining_interference_percentage", lambda: s.calc_remaining_interference_percentage(k))
+                got = guarded("solver.calc_remaining_interference_percentage" + label,
+                              lambda: s.calc_remaining_interference_percentage(k))
                 if got is not None:
-                    cmp(f"(rel) solver.calc_remaining_interference_percentage[user {k}]", got, want)
+                    cmp(f"(rel) solver.calc_remaining_interference_percentage[user {k}]{label}", got, want)
+
+        solver_checks(s, "")
+
+        def make(chx, Fs, Us, lists=False):
+            s2 = _Solver.get()(chx)
+            if lists:
+                s2.set_precoders(F=[f.copy() for f in Fs], P=P.copy())
+                s2.set_receive_filters(W=[u.copy() for u in Us])
+            else:
+                s2.set_precoders(F=_objarr(Fs), P=P.copy())
+                s2.set_receive_filters(W_H=_objarr([u.conj().T for u in Us]))
+            return s2
+
         # the same solver fed with Python LISTS (documented input type of set_precoders / set_receive_filters).
         # A mismatch here - and only here - has the signature of finding ListPrecodersScaledAlongStreams.
-        def with_lists():
-            sl = _Solver.get()(ch)
-            sl.set_precoders(F=[f.copy() for f in F], P=P.copy())
-            sl.set_receive_filters(W=[u.copy() for u in U])
-            return sl.calc_SINR()
         mark = len(bad)
-        got = guarded("solver.calc_SINR (precoders / filters given as lists)", with_lists)
+        got = guarded("solver.calc_SINR (precoders / filters given as lists)", lambda: make(ch, F, U, lists=True).calc_SINR())
         if got is not None:
             cmp_rows("solver.calc_SINR (precoders / filters given as lists)", got, ssinr)
         known.extend(bad[mark:])
         del bad[mark:]
-        # W -> c*W must not change the solver's SINR either
-        s2 = guarded("IASolverBaseClass with rescaled W", lambda: make(1 - variant, [sc * u for u in U]))
-        if s2 is not None:
-            got = guarded("solver.calc_SINR rescaled W", s2.calc_SINR)
-            if got is not None:
-                cmp_rows("solver.calc_SINR with W rescaled by %r" % (sc,), got, ssinr)
+        # W -> c*W (ordinary and extreme c) and the channel gain must not change the solver's SINR either
+        chg = ch if ex_gain == 1.0 else guarded("channel with gain", lambda: build_channel(inp, ex_gain))
+        if chg is not None:
+            s2 = guarded("IASolverBaseClass with rescaled W", lambda: make(chg, F, [sc * ex_c * u for u in U]))
+            if s2 is not None:
+                solver_checks(s2, f" with W x {sc * ex_c!r}, gain x {ex_gain:g} (extreme)", ex_gain)
     return n[0], bad, known
 
 
-def _run_case_safe(case):
+def run_unit(unit):
+    """unit = list of cases: one star case, or the consecutive cases of a chain (sorted by step).
+    Returns a list of (comparisons, bad, known), one per case (a chain stops at the first step that cannot be applied)."""
+    res = []
+    sess = Session()
     with np.errstate(all="ignore"):
-        return run_case(case)
+        for case in unit:
+            try:
+                sess.apply(case)
+            except Exception as ex:
+                res.append((1, [f"step {case['inp']['step']} ({case['inp']['op']}) raised {type(ex).__name__}: {ex}"], []))
+                break
+            res.append(compare(sess, case))
+    while len(res) < len(unit):
+        res.append((0, [], []))
+    return res
 
 
 # ------------------------------------------------------------------------------- the check
 def plan(tier):
-    """TLC jobs: (label, clo, chi, lo, hi)"""
+    """TLC jobs: (label, clo, chi, lo, hi, hlo, hhi)"""
     jobs = []
-    chunk = EXH_COUNT // 8
-    for i in range(8):
-        jobs.append((f"exhaustive-1x1/{i}", 0, 0, i * chunk, (i + 1) * chunk - 1))
-    counts = THOROUGH_COUNTS if tier == "thorough" else QUICK_COUNTS
-    step = 100 if tier == "thorough" else 48
+    nch = 6
+    chunk = EXH_COUNT // nch
+    for i in range(nch):
+        jobs.append((f"exhaustive-1x1/{i}", 0, 0, i * chunk, (i + 1) * chunk - 1, 1, 0))
+    thorough = tier == "thorough"
+    counts = THOROUGH_COUNTS if thorough else QUICK_COUNTS
+    step = 100 if thorough else 48
     for ci, cnt in counts.items():
         lo = 1
         while lo <= cnt:
             hi = min(cnt, lo + step - 1)
-            jobs.append((f"seeded/cfg{ci}/{lo}-{hi}", ci, ci, lo, hi))
+            jobs.append((f"seeded/cfg{ci}/{lo}-{hi}", ci, ci, lo, hi, 1, 0))
+            lo = hi + 1
+    for hci, cnt in (THOROUGH_CHAINS if thorough else QUICK_CHAINS).items():
+        step = 18
+        lo = 0
+        while lo < cnt:
+            hi = min(cnt - 1, lo + step - 1)
+            jobs.append((f"chain/cfg{hci}/{lo}-{hi}", 1, 0, lo, hi, hci, hci))
             lo = hi + 1
     # longest first
-    jobs.sort(key=lambda j: -(j[4] - j[3] + 1) * (1 if j[1] == 0 else 12))
+    jobs.sort(key=lambda j: -(j[4] - j[3] + 1) * (1 if j[1] == 0 and j[5] > j[6] else (60 if j[5] <= j[6] else 12)))
     return jobs
+
+
+def units_of(cases):
+    """star cases one by one; chain cases grouped by chain and ordered by step (only gap-free prefixes)"""
+    units, chains = [], {}
+    for c in cases:
+        ch = c["inp"]["chain"]
+        if ch:
+            chains.setdefault(tuple(ch), {})[c["inp"]["step"]] = c
+        else:
+            units.append([c])
+    for key in sorted(chains):
+        steps = chains[key]
+        unit = []
+        i = 1
+        while i in steps:
+            unit.append(steps[i])
+            i += 1
+        units.append(unit)
+    return units
 
 
 def run(ctx):
     ctx.rule = ("TLC computes the stream-by-stream SINR / covariances exactly (Gaussian rationals) for every case of "
-                "the domain and checks the laws on it; each emitted case is executed once on the real classes; "
+                "the domain and checks the laws on it; each emitted case is executed once on the real classes "
+                "(chain cases consecutively on one channel object and one solver object); "
                 "distinct = emitted cases (id = configuration, case number)")
     ctx.assumptions += ["values compared with |x - x^| <= 1e-9 max(1, |x^|); log2 / log10 of the exact rational by Python's math",
                         "cases with a zero SINR denominator (infinite / undefined SINR) are excluded in the specification",
                         "the IA solver is bound on the plain interference channel (no external source, no joint processing): "
                         "its API has no external-interference power",
-                        "remaining-interference percentage is evaluated numerically from TLC's exact trace / determinant (rel)"]
+                        "remaining-interference percentage is evaluated numerically from TLC's exact trace / determinant (rel)",
+                        "chains re-initialise through init_from_channel_matrix (randomize gives a channel TLC cannot know)",
+                        "the extreme scale factors (1e-9, 1e+9, 1e-17, 1e+17) rest on the term-by-term homogeneity TLC checks "
+                        "with small rational factors"]
     seed = int(ctx.seed)
     jobs = plan(ctx.tier)
 
     def tlc_job(j):
-        label, clo, chi, lo, hi = j
-        cfg, defs = model(clo, chi, lo, hi, seed)
+        label, clo, chi, lo, hi, hlo, hhi = j
+        cfg, defs = model(clo, chi, lo, hi, seed, hlo=hlo, hhi=hhi)
         return tlc.run(MODULE, cfg, defs=defs, heap="1g")   # -coverage is prohibitively slow on the recursive matrix operators
 
     def dev_job(dev):
-        clo, chi = DEV_WHERE[dev]
-        cfg, defs = model(clo, chi, 1, 12, seed, dev=[dev], emit=False)
+        kind, a, b = DEV_WHERE[dev]
+        if kind == "star":
+            cfg, defs = model(a, b, 1, 12, seed, dev=[dev], emit=False)
+        else:
+            cfg, defs = model(1, 0, 0, 8, seed, dev=[dev], emit=False, hlo=a, hhi=b)
         return tlc.run(MODULE, cfg, defs=defs, heap="1g")
 
     # TLC processes run in threads (each single-worker); VERIF_PROCS throttles them on a shared machine
@@ -409,45 +574,61 @@ def run(ctx):
             cases.append(e)
         fam = j[0].rsplit("/", 1)[0]
         per_family[fam] = per_family.get(fam, 0) + len(seen)
-        # which action produced a case is visible in its id (configuration 0 = PickExhaustive)
-        act = "PickExhaustive" if j[1] == 0 else "PickSeeded"
-        ctx.actions[act] = ctx.actions.get(act, 0) + len(seen)
-    ctx.require_actions(["PickExhaustive", "PickSeeded"])
-    if not cases:
-        raise tlc.TlcError("no case emitted")
-    res = pool_map(_run_case_safe, cases, chunksize=max(1, len(cases) // 128))
+    # which action produced a case is visible in the case itself
+    for e in cases:
+        kind = e["inp"]["op"]["kind"]
+        act = ("PickExhaustive" if e["inp"]["id"][0] == 0 else "PickSeeded") if kind == "fresh" else \
+              ("ChainStart" if kind == "init" else "ChainStep")
+        ctx.actions[act] = ctx.actions.get(act, 0) + 1
+    ctx.require_actions(["PickExhaustive", "PickSeeded", "ChainStart", "ChainStep"])
+    units = units_of(cases)
+    res = pool_map(run_unit, units, chunksize=max(1, len(units) // 128))
     comparisons = 0
     solver_cases = 0
-    for case, (ncmp, bad, known) in zip(cases, res):
-        comparisons += ncmp
-        if known:
-            ctx.finding(F_LIST, f"case {case['inp']['id']}: " + "; ".join(known[:2]), {"case": case, "mismatches": known[:6]})
-        solver_cases += 1 if case["out"]["sol"]["ok"] else 0
-        ctx.ok(key=f"{seed}:{case['inp']['id'][0]}:{case['inp']['id'][1]}")
-        if bad:
-            ctx.violation(f"case {case['inp']['id']} (K={case['inp']['K']} Nr={case['inp']['nr']} Nt={case['inp']['nt']} "
-                          f"Ns={case['inp']['ns']} ext={case['inp']['nte']} jp={case['inp']['jp']}): " + "; ".join(bad[:3]),
-                          {"case": case, "mismatches": bad[:10]})
+    chain_steps = {}
+    for unit, ures in zip(units, res):
+        for case, (ncmp, bad, known) in zip(unit, ures):
+            inp = case["inp"]
+            comparisons += ncmp
+            solver_cases += 1 if (case["out"]["sol"]["ok"] and solver_applies(inp)) else 0
+            ctx.ok(key=f"{seed}:{inp['id'][0]}:{inp['id'][1]}")
+            if inp["chain"]:
+                k = f"{inp['op']['kind']}/{inp['op']['pl']}/{inp['op']['pw']}"
+                chain_steps[k] = chain_steps.get(k, 0) + 1
+            # a chain is replayed from its first step: the stored case is the prefix of the unit
+            stored = {"unit": unit[: unit.index(case) + 1]}
+            if known:
+                ctx.finding(F_LIST, f"case {inp['id']}: " + "; ".join(known[:2]), dict(stored, mismatches=known[:6]))
+            if bad:
+                ctx.violation(f"case {inp['id']} (K={inp['K']} Nr={inp['nr']} Nt={inp['nt']} Ns={inp['ns']} "
+                              f"ext={inp['nte']} jp={inp['jp']}): " + "; ".join(bad[:3]), dict(stored, mismatches=bad[:10]))
+        if len(unit) > 1:
+            ctx.trace_done()
     ctx.exhaustive = True   # the 1x1 family enumerates all channel matrices over the alphabet x noise settings
     ctx.notes["cases_per_family"] = per_family
     ctx.notes["comparisons"] = comparisons
     ctx.notes["cases_with_solver"] = solver_cases
+    ctx.notes["chain_steps_executed"] = chain_steps
     ctx.notes["exhaustive_scope"] = ("K=2, 1x1 blocks: all 6^4 channel matrices over {0,1,-1,i,-i,1+i} x noise {None,0,1/2}; "
-                                     "other families are seeded samples of the stated domain")
-    mid = cases[len(cases) // 2]
+                                     "other families and the chains are seeded samples of the stated domain")
+    stars = [u[0] for u in units if len(u) == 1 and not u[0]["inp"]["chain"]]
+    mid = stars[len(stars) // 2]
     ctx.sample({"id": mid["inp"]["id"], "K": mid["inp"]["K"], "Nr": mid["inp"]["nr"], "Nt": mid["inp"]["nt"],
                 "Ns": mid["inp"]["ns"], "noise": mid["inp"]["noise"], "sinr_exact": mid["out"]["sinr"]})
-    ctx.sample({"id": cases[-1]["inp"]["id"], "jp": cases[-1]["inp"]["jp"], "ext": cases[-1]["inp"]["nte"],
-                "sinr_exact": cases[-1]["out"]["sinr"]})
+    longest = max(units, key=len)
+    ctx.sample({"chain": longest[0]["inp"]["chain"],
+                "steps": [[c["inp"]["op"]["kind"], c["inp"]["op"]["pl"], c["inp"]["op"]["pw"], c["inp"]["nr"], c["inp"]["nt"]]
+                          for c in longest]})
 
 
 def replay(ctx, data):
     c = data["case"]
-    case = c["case"]
-    ncmp, bad, known = _run_case_safe(case)
-    ctx.ok(key=str(case["inp"]["id"]))
-    ctx.notes["comparisons"] = ncmp
-    if known:
-        ctx.finding(F_LIST, f"case {case['inp']['id']}: " + "; ".join(known[:2]), {"case": case, "mismatches": known[:6]})
-    if bad:
-        ctx.violation(f"case {case['inp']['id']}: " + "; ".join(bad[:3]), {"case": case, "mismatches": bad[:10]})
+    unit = c["unit"] if "unit" in c else [c["case"]]
+    res = run_unit(unit)
+    ctx.notes["comparisons"] = sum(r[0] for r in res)
+    for case, (ncmp, bad, known) in zip(unit, res):
+        ctx.ok(key=str(case["inp"]["id"]))
+        if known:
+            ctx.finding(F_LIST, f"case {case['inp']['id']}: " + "; ".join(known[:2]), {"unit": unit, "mismatches": known[:6]})
+        if bad:
+            ctx.violation(f"case {case['inp']['id']}: " + "; ".join(bad[:3]), {"unit": unit, "mismatches": bad[:10]})
